@@ -181,6 +181,7 @@ func famC13(r *Run) {
 	famHistLong(r)
 	famOneShotStructs(r)
 	famSlicePairs(r)
+	famHistArity(r)
 }
 
 func parseObs(p *jmespath.Parser, expr string) (a AObs) {
@@ -335,6 +336,7 @@ func famC14(r *Run) {
 	famNonASCIIBare(r)
 	famCaseTwins(r)
 	famMultiRawTargeted(r)
+	famLiteralEscapes(r)
 }
 
 func rawOrLit(s string) string {
@@ -430,4 +432,6 @@ func famC15(r *Run) {
 	famPipeJSONStrings(r)
 	famLongChains(r)
 	famPipeNonFinite(r)
+	famLateErrors(r)
+	famCallSequences(r)
 }
